@@ -439,6 +439,84 @@ def unit_get_feature(U):
         U.prove("C05.get_feature#p%d" % p.index, "_get_feature(ID) selects exactly the features row with id == ID (no join, one argument) and returns it as a Feature", p.pc, goal, {"k": kid})
 
 
+def native_delete_then_merge(m=None):
+    # a stored feature whose relation row is gone (parent deleted) is merged with a newcomer that names no parent:
+    # the newcomer must not inherit the stored Parent value (and with it a link nobody asked for)
+    mk = lambda i, t, par=None, **a: F.Feature(seqid="c", source="s", featuretype=t, start=1, end=9, strand="+", attributes=dict({"ID": [i]}, **dict({"Parent": par} if par else {}, **{k: [v] for k, v in a.items()})))
+    d = tempfile.mkdtemp()
+    try:
+        fn = os.path.join(d, "x.db")
+        db = gffutils.create_db([mk("g1", "gene"), mk("m1", "mRNA", ["g1"]), mk("e1", "exon", ["m1"])], fn, merge_strategy="merge")
+        db.delete("g1", make_backup=False)
+        newcomer = mk("m1", "mRNA", None, Note="n")
+        before = {k: list(v) for k, v in newcomer.attributes.items()}
+        db.update([newcomer], merge_strategy="merge", make_backup=False)
+        rel = sorted(tuple(r) for r in db.conn.execute("SELECT parent, child, level FROM relations"))
+        obs = {"relations": rel, "newcomer attributes after update": {k: list(v) for k, v in newcomer.attributes.items()}}
+        exp = {"relations": [("m1", "e1", 1)], "newcomer attributes after update": before}
+        return {"inputs": "create g1 <- m1 <- e1; delete(g1); update([m1 without Parent, Note=n], merge)", "expected": exp, "observed": obs, "violates": obs != exp}
+    finally:
+        shutil.rmtree(d, ignore_errors=True)
+
+
+def unit_merge_candidate(U):
+    """'merge' with a stored candidate that agrees on the compared columns: the stored record gets the union of both
+    attribute sets; the NEWCOMER is left exactly as it arrived (its attributes mapping and value lists are not written:
+    the caller files the newcomer's own Parent links afterwards)"""
+    import builtins
+    import copy as _copy
+    it = _interp()
+
+    def dcopy(interp, args, kwargs):
+        def cp(x):
+            if isinstance(x, dict):
+                return {k: cp(v) for k, v in x.items()}
+            if isinstance(x, list):
+                return [cp(v) for v in x]
+            if isinstance(x, Attributes):
+                a = object.__new__(Attributes)
+                a._d = cp(x._d)
+                return a
+            return x
+        return cp(args[0])
+    it.contracts[_copy.deepcopy] = dcopy
+
+    def run(ctx):
+        fid, _ = IM.sval("f.ID")
+        n1, _ = IM.sval("f.Note")
+        p1, _ = IM.sval("cand.Parent")
+        f, _ = IM.sym_feature("f", {"ID": [fid], "Note": [n1]})
+        f.id = fid
+        cand = blank_feature(id=fid, seqid=f.seqid, source=f.source, featuretype=f.featuretype, start=f.start, end=f.end, score=f.score, strand=f.strand, frame=f.frame)
+        ca = object.__new__(Attributes)
+        ca._d = {"ID": [fid], "Parent": [p1]}
+        cand.attributes = ca
+        it.contracts[C._DBCreator._candidate_merges] = lambda interp, a, k: [cand]
+        base_set = it.models.b_set
+        from pyvc.core import has_sym
+        it.models.table[builtins.set] = lambda x=(): ([y for i_, y in enumerate(list(x)) if all(y is not z for z in list(x)[:i_])] if has_sym(list(x), 1) else base_set(x))
+        ctx.assumed_models.add("set(<distinct symbolic strings>) == those strings (order abstracted)")
+        cr = IM.blank_creator(C._GFFDBCreator, ghostdb.GhostConn(), merge_strategy="merge")
+        snap = {k: list(v) for k, v in f.attributes._d.items()}
+        ctx.stash.update(f=f, cand=cand, snap=snap, fd=f.attributes._d, lists={k: v for k, v in f.attributes._d.items()})
+        return it.call(C._DBCreator._do_merge, [cr, f, "merge"], {})
+
+    replay = native_delete_then_merge
+    for p in U.explore(run, it):
+        ok = p.kind == "return" and isinstance(p.value, tuple) and p.value[1] == "merge"
+        if ok:
+            st = p.ctx.stash
+            fixed = p.value[0]
+            fa = st["f"].attributes
+            d = fixed.attributes._d if isinstance(fixed.attributes, Attributes) else fixed.attributes
+            ok = (fixed is st["cand"] and isinstance(d, dict) and set(d) == {"ID", "Note", "Parent"}
+                  and fa._d is st["fd"] and set(fa._d) == set(st["snap"]) and all(fa._d[k] is st["lists"][k] and len(fa._d[k]) == len(st["snap"][k]) and all(x is y for x, y in zip(fa._d[k], st["snap"][k])) for k in st["snap"])
+                  and fixed.attributes is not fa and all(d[k] is not fa._d.get(k) for k in d))
+        U.prove("C05.do_merge.merge.candidate#p%d" % p.index,
+                "a candidate agrees on the compared columns ==> it is returned carrying the union of both attribute sets; the newcomer's own mapping and value lists are not written and not shared with the result",
+                [], z3.BoolVal(bool(ok)), {}, replay=replay)
+
+
 FORCE_FIELDS = [(), ("source",), ("source", "score"), ("score", "source"), ("frame", "score", "source"), ("strand", "featuretype")]
 
 
@@ -738,7 +816,7 @@ def unit_bounded_explicit(U):
     U.bounded_result("C05.bounded.explicit_generated_key", "create_unique/merge keep all features even when an explicit id equals a generated key", "lines k, k_1, k x 2 strategies", 2, fails, exhaustive=True)
 
 
-UNITS = [("bounded.explicit", unit_bounded_explicit), ("do_merge", unit_do_merge), ("candidates", unit_candidates), ("get_feature", unit_get_feature), ("collision_merge", unit_collision_merge), ("merge_no_candidate", unit_merge_no_candidate), ("collision", unit_collision), ("init", unit_init), ("bounded.merge", unit_bounded_merge), ("bounded.force_fields", unit_bounded_force_fields)]
+UNITS = [("bounded.explicit", unit_bounded_explicit), ("do_merge", unit_do_merge), ("candidates", unit_candidates), ("merge_candidate", unit_merge_candidate), ("get_feature", unit_get_feature), ("collision_merge", unit_collision_merge), ("merge_no_candidate", unit_merge_no_candidate), ("collision", unit_collision), ("init", unit_init), ("bounded.merge", unit_bounded_merge), ("bounded.force_fields", unit_bounded_force_fields)]
 
 
 def replay_known(entry):
